@@ -844,6 +844,24 @@ def directed_workloads():
     return [w_imm, w_mut, w_http, w_exdev]
 
 
+def growth_workload(nleases, si=3, amounts=None):
+    """A mutable share with `nleases` leases (4 header slots + extras), then writes
+    that grow the container by amounts around multiples of the lease-record sizes
+    times the number of extra leases (92*e-1, 92*e, 92*e+1, 72*e, 4, 4+92*e): the
+    extra-lease block is moved by exactly / almost its own size."""
+    e = nleases - 4
+    ops = [{"op": "writev", "si": si, "secret": 0, "tw": [[0, [[], [[0, hx(b"g" * 10)]], None]]]}]
+    for j in range(1, nleases):
+        ops.append({"op": "add_lease", "si": si, "secret": j})
+    size = 10
+    for g in (amounts or ("92e", "92e-1", "72e", "4", "92e+1", "92e+4")):
+        g = {"92e": 92 * e, "92e-1": 92 * e - 1, "72e": 72 * e, "4": 4, "92e+1": 92 * e + 1, "92e+4": 92 * e + 4}[g]
+        size += g
+        ops.append({"op": "writev", "si": si, "secret": 0, "renew": False,
+                    "tw": [[0, [[], [[size - 1, hx(b"G")]], None]]]})
+    return ops
+
+
 def random_workload(r):
     """Mostly-valid op sequence over two immutable and two mutable storage
     indexes, weighted to reach: several leases per immutable share, more than
@@ -1222,6 +1240,23 @@ class Runner(object):
                                     case=case, expected=show(v0), observed=show(v1))
             self.window_terms.append(("Bool.eqb (check_window_at %s %s %s) %s" % (_I[0].state(R["hist"]), R["term"], T.nat(case["completed_calls"]),
                                                                                T.boolean(window_hit)), case))
+        # a completed mutable write keeps the leases of the shares it wrote ("keeps its
+        # leases"; at the crash points inside _change_container_size the code itself
+        # documents a window, see Props/C29.v mutable_growth_window)
+        if k == "writev" and not crashed and R.get("exc") is None:
+            for sh, (tv, dv, nl) in op["tw"]:
+                key = (si, sh)
+                v0, v1 = pre[key], post[key]
+                if nl == 0 or v0[0] != "mut" or v1[0] != "mut" or v0[2] is None:
+                    continue
+                had = [x[8:40] for x in v0[2]]
+                has = None if v1[2] is None else [x[8:40] for x in v1[2]]
+                if has is None or any(x not in has for x in had):
+                    lost = len(had) if has is None else len([x for x in had if x not in has])
+                    ctx.oracle_fail("mutable-write-lost-leases",
+                                    "a completed slot_testv_and_readv_and_writev on share %d/%d (container grown to hold offset %s) lost %d of its %d leases"
+                                    % (si, sh, max([o + len(d) // 2 for o, d in dv] or [0]), lost, len(had)),
+                                    case=case, expected={"leases": len(had)}, observed={"leases": None if has is None else len(has)})
         # (3) an immutable share is either absent or complete; (4) uploads in progress are discarded
         inc = os.path.join(w.base, "shares", "incoming")
         left = []
@@ -1542,6 +1577,9 @@ def _run(ctx, runner):
     http_histories(ctx)
     for i, wl in enumerate(directed_workloads()):
         runner.run_workload("directed-%d" % i, wl, restart_crashes=(i == 0 or ctx.tier == "thorough"))
+    for nl in ((6, 7) if ctx.tier == "quick" and not ctx.search else (5, 6, 7, 8)):
+        quick = ctx.tier == "quick" and not ctx.search
+        runner.run_workload("growth-%d-leases" % nl, growth_workload(nl, amounts=("92e", "72e", "92e+1") if quick else None))
     n = ctx.n(6, 150)
     base = 1000 if ctx.search else 0
     for i in range(n):
